@@ -6,8 +6,8 @@ props.py — per-property configuration of the check driver: proof modules, theo
 PROPS = {}
 
 PROPS["C05"] = dict(
-    modules=["Proofs.C05"],
-    theorems=["Goflow.C05.header_roundtrip", "Goflow.C05.record_roundtrip", "Goflow.C05.roundtrip",
+    modules=["Proofs.C05", "Proofs.C05Trans"],
+    theorems=["Goflow.C05Trans.decodeMessage_trans_eq", "Goflow.C05Trans.decodeMessageVersion_trans_eq", "Goflow.C05.header_roundtrip", "Goflow.C05.record_roundtrip", "Goflow.C05.roundtrip",
               "Goflow.C05.truncation", "Goflow.C05.records_le_present", "Goflow.C05.layout_matches"],
     generators=[dict(name="C05", quick=3000, thorough=200000)],
     harness=["impl"],
@@ -16,16 +16,16 @@ PROPS["C05"] = dict(
 )
 
 PROPS["C03"] = dict(
-    modules=["Proofs.C03"],
-    theorems=['Goflow.C03.field_roundtrip', 'Goflow.C03.optionField_roundtrip', 'Goflow.C03.templateSet_roundtrip', 'Goflow.C03.optionsTemplateSet_roundtrip_v9', 'Goflow.C03.optionsTemplateSet_roundtrip_ipfix', 'Goflow.C03.record_roundtrip', 'Goflow.C03.encRecord_length_ge', 'Goflow.C03.dataSet_roundtrip', 'Goflow.C03.optionsDataSet_roundtrip', 'Goflow.C03.flowSet_roundtrip', 'Goflow.C03.messageCommon_roundtrip', 'Goflow.C03.roundtrip'],
+    modules=["Proofs.C03", "Proofs.C03Trans"],
+    theorems=['Goflow.C03Trans.getTemplateSize_eq', 'Goflow.C03.field_roundtrip', 'Goflow.C03.optionField_roundtrip', 'Goflow.C03.templateSet_roundtrip', 'Goflow.C03.optionsTemplateSet_roundtrip_v9', 'Goflow.C03.optionsTemplateSet_roundtrip_ipfix', 'Goflow.C03.record_roundtrip', 'Goflow.C03.encRecord_length_ge', 'Goflow.C03.dataSet_roundtrip', 'Goflow.C03.optionsDataSet_roundtrip', 'Goflow.C03.flowSet_roundtrip', 'Goflow.C03.messageCommon_roundtrip', 'Goflow.C03.roundtrip'],
     generators=[dict(name="C03", quick=4000, thorough=100000)],
     harness=["impl"],
     level_text="Theorem roundtrip: decode (encode m) = m for every well-formed NetFlow v9 / IPFIX message against an RFC encoder (template store update, padding, enterprise bit, variable length), plus the differential run of the encoder's output through the Go decoder.",
 )
 
 PROPS["C04"] = dict(
-    modules=["Proofs.C04", "Proofs.C04Roundtrip"],
-    theorems=['Goflow.C04.xdrString_roundtrip', 'Goflow.C04.ip_roundtrip', 'Goflow.C04.unknown_record_skipped', 'Goflow.C04.unknown_flow_record',
+    modules=["Proofs.C04", "Proofs.C04Roundtrip", "Proofs.C04Trans"],
+    theorems=['Goflow.C04Trans.decodeIP_trans_eq', 'Goflow.C04.xdrString_roundtrip', 'Goflow.C04.ip_roundtrip', 'Goflow.C04.unknown_record_skipped', 'Goflow.C04.unknown_flow_record',
               'Goflow.C04.flowRecord_roundtrip', 'Goflow.C04.counterRecord_roundtrip', 'Goflow.C04.sample_roundtrip', 'Goflow.C04.roundtrip', 'Goflow.C04.exampleDatagram_wf'],
     generators=[dict(name="C04", quick=4000, thorough=150000)],
     harness=["impl"],
@@ -95,11 +95,11 @@ PROPS["C11"] = dict(
 )
 
 PROPS["C12"] = dict(
-    modules=["Proofs.C12", "Proofs.C12Pool"],
+    modules=["Proofs.C12", "Proofs.C12Pool", "Proofs.C12Commit"],
     theorems=["Goflow.C12.reset_total", "Goflow.C12.pool_independent", "Goflow.C12.sflow_stateless",
               "Goflow.C12Pool.decodeFlowP_eq", "Goflow.C12Pool.sent_formatter", "Goflow.C12Pool.history_pool_free",
               "Goflow.C12Pool.pool_content_irrelevant", "Goflow.C12Pool.take_plain", "Goflow.C12Pool.decodeFlowP_plain", "Goflow.C12Pool.history_plain", "Goflow.C12Pool.leak_without_reset",
-              "Goflow.C12Pool.state_inventory"],
+              "Goflow.C12Pool.state_inventory", "Goflow.C12Commit.commit_once", "Goflow.C12Commit.refuseAt_state", "Goflow.C12Commit.refuseAt_prefix", "Goflow.C12Commit.refuseAt_refused"],
     generators=[dict(name="C12", quick=150, thorough=4000)],
     harness=["impl"],
     confirm_alone=True,
@@ -158,8 +158,8 @@ PROPS["C16"] = dict(
 )
 
 PROPS["C19"] = dict(
-    modules=["Proofs.C19", "Proofs.Findings.C19"],
-    theorems=["Goflow.C19.inv_init", "Goflow.C19.inv_step", "Goflow.C19.inv_run", "Goflow.C19.no_closed_write",
+    modules=["Proofs.C19", "Proofs.Findings.C19", "Proofs.C19Faults", "Proofs.Findings.C19Faults"],
+    theorems=["Goflow.C19Faults.acked_written", "Goflow.C19Faults.failed_not_written", "Goflow.C19Faults.written_iff", "Goflow.C19Faults.no_partial_units", "Goflow.C19Faults.lock_exclusion", "Goflow.C19Faults.after_failed_reopen_sends_fail", "Goflow.Findings.C19Faults.swallowed_error_acknowledges_unwritten", "Goflow.C19.inv_init", "Goflow.C19.inv_step", "Goflow.C19.inv_run", "Goflow.C19.no_closed_write",
               "Goflow.C19.each_once", "Goflow.C19.units_in_one_file", "Goflow.Findings.C19.closed_write_possible",
               "Goflow.C19.skeleton_matches", "Goflow.C19.open_appends"],
     generators=[dict(name="C19", quick=12, thorough=300, subseeds=4)],
@@ -172,8 +172,8 @@ PROPS["C19"] = dict(
 )
 
 PROPS["C17"] = dict(
-    modules=["Proofs.C17"],
-    theorems=["Goflow.C17.inv_init", "Goflow.C17.inv_step", "Goflow.C17.inv_run", "Goflow.C17.conservation",
+    modules=["Proofs.C17", "Proofs.C17Faults"],
+    theorems=["Goflow.C17Faults.blocking_with_queue_never_drops", "Goflow.C17Faults.blocking_with_queue_drop_disabled", "Goflow.C17Faults.blocking_full_queue_waits", "Goflow.C17Faults.blocking_accounting", "Goflow.C17.inv_init", "Goflow.C17.inv_step", "Goflow.C17.inv_run", "Goflow.C17.conservation",
               "Goflow.C17.decoded_dropped_disjoint", "Goflow.C17.quiescent_accounting", "Goflow.C17.blocking_no_drop",
               "Goflow.C17.skeleton_matches", "Goflow.C17.bufInv_init", "Goflow.C17.bufInv_step", "Goflow.C17.buffer_exclusive"],
     generators=[dict(name="C17", quick=10, thorough=200, subseeds=4)],
@@ -188,8 +188,8 @@ PROPS["C17"] = dict(
 import e2e
 
 PROPS["C18"] = dict(
-    modules=["Proofs.C18"],
-    theorems=["Goflow.C18.start_stop_results", "Goflow.C18.shutdown_order", "Goflow.C18.skeleton_matches",
+    modules=["Proofs.C18", "Proofs.C18Faults"],
+    theorems=["Goflow.C18Faults.results_spec_faults", "Goflow.C18Faults.never_hangs", "Goflow.C18Faults.state_after_calls", "Goflow.C18Faults.workers_run_session_decoder", "Goflow.C18Faults.refused_start_keeps_decoder", "Goflow.C18Faults.failed_start_restartable", "Goflow.C18Faults.restart_installs_new_decoder", "Goflow.C18Faults.faultfree_agrees", "Goflow.C18.start_stop_results", "Goflow.C18.shutdown_order", "Goflow.C18.skeleton_matches",
               "Goflow.C18.drainInv_init", "Goflow.C18.drainInv_step", "Goflow.C18.drainInv_run",
               "Goflow.C18.stop_drains", "Goflow.C18.stop_not_stuck",
               "Goflow.C18.quit_open_after_every_call", "Goflow.C18.callRun2_results", "Goflow.C18.startup_order"],
@@ -203,8 +203,8 @@ PROPS["C18"] = dict(
 )
 
 PROPS["C20"] = dict(
-    modules=["Proofs.C20"],
-    theorems=["Goflow.C20.send_preserves", "Goflow.C20.close_flushes_before_stop", "Goflow.C20.all_delivered",
+    modules=["Proofs.C20", "Proofs.C20Faults", "Proofs.Findings.C20"],
+    theorems=["Goflow.C20Faults.every_lifecycle_flushed_contract", "Goflow.C20Faults.every_lifecycle_delivered_contract", "Goflow.C20Faults.every_lifecycle_flushed", "Goflow.C20Faults.lifecycle_outcome_contract", "Goflow.C20Faults.inputs_are_sends", "Goflow.C20Faults.close_forwards_nonblocking", "Goflow.C20Faults.reader_irrelevant", "Goflow.C20Faults.draining_accepts_errors", "Goflow.C20Faults.close_step_decreases", "Goflow.C20Faults.close_bounded", "Goflow.C20Faults.close_returns_within", "Goflow.Findings.C20.once_close_skips_second_lifecycle", "Goflow.Findings.C20.blocking_forward_deadlock", "Goflow.Findings.C20.go_close_returns_same_schedule", "Goflow.C20.send_preserves", "Goflow.C20.close_flushes_before_stop", "Goflow.C20.all_delivered",
               "Goflow.C20.equal_keys_same_partition", "Goflow.C20.producer_settings_match"],
     generators=[dict(name="C20", quick=8, thorough=80, subseeds=4)],
     harness=["impl"],
